@@ -97,7 +97,10 @@ theorem sendAutoPing_tCloseHs (s : S) : (sendAutoPing s).tCloseHs = s.tCloseHs :
   split
   · show (sendPing (beginAutoPing s) _).tCloseHs = s.tCloseHs
     rw [(sendPing_SendEq _ _).tCloseHs]; rfl
-  · rw [(sendPing_SendEq _ _).tCloseHs]; rfl
+  · split
+    · show (sendPing (beginAutoPing s) _).tCloseHs = s.tCloseHs
+      rw [(sendPing_SendEq _ _).tCloseHs]; rfl
+    · rw [(sendPing_SendEq _ _).tCloseHs]; rfl
 
 theorem sendAutoPing_st (s : S) : (sendAutoPing s).st = s.st := by
   unfold sendAutoPing
@@ -105,7 +108,10 @@ theorem sendAutoPing_st (s : S) : (sendAutoPing s).st = s.st := by
   split
   · show (sendPing (beginAutoPing s) _).st = s.st
     rw [(sendPing_SendEq _ _).st]; rfl
-  · rw [(sendPing_SendEq _ _).st]; rfl
+  · split
+    · show (sendPing (beginAutoPing s) _).st = s.st
+      rw [(sendPing_SendEq _ _).st]; rfl
+    · rw [(sendPing_SendEq _ _).st]; rfl
 
 /-- firing any other timer leaves the closing-handshake timer armed, unless the connection got closed -/
 theorem fire_keeps_closeHs (s : S) (k : TK) (t : Nat × Nat) (h : s.tCloseHs = some t) (hk : k ≠ .closeHs) :
@@ -211,7 +217,10 @@ theorem sendAutoPing_tServerDrop (s : S) : (sendAutoPing s).tServerDrop = s.tSer
   split
   · show (sendPing (beginAutoPing s) _).tServerDrop = s.tServerDrop
     rw [(sendPing_SendEq _ _).tServerDrop]; rfl
-  · rw [(sendPing_SendEq _ _).tServerDrop]; rfl
+  · split
+    · show (sendPing (beginAutoPing s) _).tServerDrop = s.tServerDrop
+      rw [(sendPing_SendEq _ _).tServerDrop]; rfl
+    · rw [(sendPing_SendEq _ _).tServerDrop]; rfl
 
 theorem fire_keeps_serverDrop (s : S) (k : TK) (t : Nat × Nat) (h : s.tServerDrop = some t) (hk : k ≠ .serverDrop) :
     (fire s k).st = .closed ∨ (fire s k).tServerDrop = some t := by
